@@ -167,6 +167,17 @@ def grid_cases(first_id):
             out.append({"id": first_id + len(out), "op": "c11.fix", "files": {"/w/p0/f0.rego": body},
                         "enable": ["non-raw-regex-pattern", "use-assignment-operator", "no-whitespace-comment"], "root": "/w",
                         "_directed": True})
+    # a pattern that ENDS in an escaped backslash, followed by further string literals on the same line: the closing
+    # quote of the pattern is the one after an even number of backslashes, not "the first quote not preceded by one"
+    for pre in ("", "a", "é"):
+        for nb in (4, 8):
+            pat = '"' + pre + "\\" * nb + '"'
+            for tail in ('"/"', '"x\\\\dy"', '`r`'):
+                body = ("package p0\n\n# id:0\nimport rego.v1\n\n"
+                        "u := regex.replace(input.path, %s, %s)\n"
+                        "v if regex.match(%s, input.s) == (input.t == \"q\")\n" % (pat, tail, pat))
+                out.append({"id": first_id + len(out), "op": "c11.fix", "files": {"/w/p0/f0.rego": body},
+                            "enable": ["non-raw-regex-pattern"], "root": "/w", "_directed": True})
     return out
 
 
